@@ -184,6 +184,30 @@ def main(tier: str) -> int:
             gen = next((i for i, (x, y) in enumerate(zip(prints[0][0], prints[1][0])) if x != y), None)
             chk.fail("two GP runs with identical arguments and seed differ (operators of three and four arguments, swap mutation)",
                      {"optimizer": cls.__name__, **{k: str(v) for k, v in kw.items()}, "first_differing_generation": gen}, {"target": cls.__name__, "clause": "same_seed_swap"})
+    # ---- the same seed with worker processes / threads (n_jobs > 1): every random draw of a run must still come from the seeded streams
+    import c16_workers as W
+    W.DELAYS = 0
+    for cls, kw, f in ((O.GeneticAlgorithm, dict(iters=4, pop_size=10, str_len=14), W.onemax),
+                       (O.GeneticProgramming, dict(iters=4, pop_size=10, uniset=T.uniset(), max_level=6, init_level=3), W.tree_size),
+                       (O.SelfCGA, dict(iters=4, pop_size=10, str_len=14), W.onemax),
+                       (O.DifferentialEvolution, dict(iters=4, pop_size=10, left_border=-2.0, right_border=2.0, num_variables=3), W.neg_sphere_delayed)):
+        prints = []
+        try:
+            for rep in range(2):
+                perturb(700 + 23 * rep + len(prints))
+                o = cls(f, keep_history=True, n_jobs=2, random_state=chk.seed + 17, **kw)
+                o.fit()
+                st = o.get_stats()
+                prints.append(([[T.key_of(x) for x in g] for g in st["population_g"]], [[float(v) for v in fr] for fr in st["fitness"]]))
+        except Exception as e:
+            chk.fail("a run with n_jobs > 1 raises", {"optimizer": cls.__name__, "error": repr(e)[:200]}, {"target": cls.__name__, "clause": "raises_parallel"})
+            continue
+        chk.count("same_seed_n_jobs")
+        chk.case((cls.__name__, "n_jobs=2"))
+        if prints[0] != prints[1]:
+            gen = next((i for i, (x, y) in enumerate(zip(prints[0][0], prints[1][0])) if x != y), None)
+            chk.fail("two runs with identical arguments and seed differ", {"optimizer": cls.__name__, "n_jobs": 2, "first_differing_generation": gen},
+                     {"target": cls.__name__, "clause": "same_seed_n_jobs"})
     # ---- estimators
     E.install_validate_data()
     Xr, yr = E.data_regression(seed=chk.seed)
